@@ -31,7 +31,7 @@ Elems == { AN("A","A","",<<LI(0)>>), AN("A","A","",<<LI(10)>>), AN("A","A","",<<
            AN("A","A","",<<Un("neg", LI(1))>>), AN("A","A","",<<LS(5, 1)>>),
            AN("A","AB","",<<LI(1)>>), AN("A","A","%",<<LI(1)>>), AN("A","A","$",<<LI(1)>>),
            AN("A","A","",<<LI(5)>>), AN("A","A","",<<LI(6)>>), AN("A","A","",<<LI(3), LI(4)>>),
-           AN("A","A","",<<LI(12), LI(1)>>) }
+           AN("A","A","",<<LI(12), LI(1)>>), AN("B","B","",<<LI(1)>>), AN("B","B","$",<<LI(2)>>), AN("A","AB","$",<<LI(2)>>) }
 Dims  == { AN("A","A","",<<LI(5)>>), AN("A","A","",<<LI(2), LI(3)>>), AN("A","A","%",<<LI(0)>>),
            AN("A","A","",<<LI(12), LI(1)>>), AN("A","A","",<<Un("neg", LI(1))>>) }
 PrintAll == SPrint(<<PE(VN("A","A","")), PSep(";"), PE(VN("A","A","%")), PSep(";"), PE(VN("A","A","$")), PSep(";"),
@@ -39,11 +39,12 @@ PrintAll == SPrint(<<PE(VN("A","A","")), PSep(";"), PE(VN("A","A","%")), PSep(";
 
 Menu ==
   { CDirect(<<SLet(v, e)>>) : v \in Scalars, e \in Vals }
-  \cup { CDirect(<<SLet(v, One)>>) : v \in Elems }
+  \cup { CDirect(<<SLet(v, IF v.sfx = "$" THEN LStr(<<90>>) ELSE One)>>) : v \in Elems }
   \cup { CDirect(<<SLet(AN("A","A","$",<<LI(1)>>), LStr(<<83>>))>>), CDirect(<<SLet(AN("A","A","",<<LI(1),LI(2)>>), LI(0))>>),
          CDirect(<<SLet(VN("A","A",""), LI(0))>>) }
   \cup { CDirect(<<SDim(<<d>>)>>) : d \in Dims }
-  \cup { CDirect(<<SErase(<<VN("A","A","")>>)>>), CDirect(<<SErase(<<VN("A","A","%")>>)>>) }
+  \cup { CDirect(<<SErase(<<VN("A","A","")>>)>>), CDirect(<<SErase(<<VN("A","A","%")>>)>>),
+         CDirect(<<SErase(<<VN("B","B","")>>)>>), CDirect(<<SErase(<<VN("B","B","$")>>)>>) }
   \cup { CDirect(<<SDefType("I","A","A")>>), CDirect(<<SDefType("$","A","A")>>), CDirect(<<SDefType("D","A","B")>>),
          CDirect(<<SDefType("S","A","Z")>>), CDirect(<<SDefType("I","F","F")>>) }
   \cup { CDirect(<<SSwap(VN("A","A",""), VN("A","AB",""))>>), CDirect(<<SSwap(VN("A","A",""), VN("A","A","%"))>>),
